@@ -233,12 +233,18 @@ func (c markedCodec) Omit(p unsafe.Pointer) bool {
 // Register (both orders are legitimate; the library's own packages use codec first).
 var c20SchemaFirst bool
 
+// c20NullSecond: the next nullable registration puts null SECOND in the registered union.
+var c20NullSecond bool
+
 func c20Register(ti, j int, nullable bool) {
 	def := customDefs[ti]
 	regSchema := func() {
 		lib := avro.Schema{Type: def.wireKind()}
 		if nullable {
 			lib = avro.Schema{Type: "union", Union: []avro.Schema{{Type: "null"}, {Type: def.wireKind()}}}
+			if c20NullSecond {
+				lib.Union[0], lib.Union[1] = lib.Union[1], lib.Union[0]
+			}
 		}
 		avro.RegisterSchema(def.typ, lib)
 	}
@@ -256,7 +262,11 @@ func c20Register(ti, j int, nullable bool) {
 	model := ref.Prim(def.wireKind())
 	if nullable {
 		lib = avro.Schema{Type: "union", Union: []avro.Schema{{Type: "null"}, {Type: def.wireKind()}}}
-		model = ref.Nullable(model)
+		if c20NullSecond {
+			model = ref.Schema{Kind: "union", Branches: []ref.Schema{model, ref.Prim("null")}}
+		} else {
+			model = ref.Nullable(model)
+		}
 	}
 	_ = lib
 	if !c20SchemaFirst {
@@ -363,6 +373,7 @@ type c20Op struct {
 	Type        int  `json:"type,omitempty"`
 	Builder     int  `json:"builder,omitempty"`
 	Nullable    bool `json:"nullable,omitempty"`
+	NullSecond  bool `json:"null_second,omitempty"` // with Nullable: the registered union is [T, null]
 	// roundtrip
 	TS      spec.TypeSpec    `json:"ts,omitempty"`
 	GoType  string           `json:"go_type,omitempty"`
@@ -417,7 +428,9 @@ func runC20(c c20Case) (bool, []string, error) {
 		}
 		if op.Register {
 			c20SchemaFirst = op.SchemaFirst
+			c20NullSecond = op.NullSecond
 			c20Register(op.Type%len(customDefs), op.Builder%2, op.Nullable)
+			c20NullSecond = false
 			c20SchemaFirst = false
 			reRegistered = true
 			continue
@@ -683,7 +696,7 @@ func drawC20(t *rapid.T) c20Case {
 			continue
 		}
 		if gen.Uniform(t, "op", 3) == 0 {
-			c.Ops = append(c.Ops, c20Op{Register: true, Type: gen.Uniform(t, "type", 6), Builder: gen.Uniform(t, "builder", 2), Nullable: rapid.Bool().Draw(t, "nullable"), SchemaFirst: rapid.Bool().Draw(t, "schemaFirst")})
+			c.Ops = append(c.Ops, c20Op{Register: true, Type: gen.Uniform(t, "type", 6), Builder: gen.Uniform(t, "builder", 2), Nullable: rapid.Bool().Draw(t, "nullable"), NullSecond: gen.Uniform(t, "nullSecond", 3) == 0, SchemaFirst: rapid.Bool().Draw(t, "schemaFirst")})
 			continue
 		}
 		ts := gen.StructType(t, gen.TypeOpts{MaxDepth: 3, MaxFields: 4, Leaves: leaves}, 1)
